@@ -130,6 +130,7 @@ def main():
         by_backend=s["by_backend"], solver_seconds=round(s["solver_s"], 3), paths=s["paths"], cases=s["n_cases"],
         lemmas=s["lemmas"],
         functions_under_contract=sorted(s["functions"].values(), key=lambda d: d["qualname"]),
+        preconditions={k: v for k, v in sorted(s.get("preconditions", {}).items()) if v},
         crosscheck=s["cross"], bounded=s["bounded"], samples=s["samples"] or [dict(note="no discharged deductive obligation on this run")],
         known_findings_reported=s["known_lines"], not_decided=meta.get("not_decided", []),
         dropped_by_extraction=DROPPED + s["dropped"], undecided=s["undecided"][:20],
